@@ -45,9 +45,31 @@ pub struct Variant {
     pub valid: bool,
 }
 
-fn variants(thorough: bool) -> Vec<Variant> {
+fn variants(deep: bool) -> Vec<Variant> {
+    // quick = the former thorough tier (complete menu at every single gap) plus the simplest program of every
+    // grammar group; thorough adds every program of the reference grammar with one deviation, each also with
+    // every menu member at every gap at once
+    let thorough = true;
     let mut out = vec![];
     let menu = corpus::trivia_menu();
+    for c in crate::gram::generate(if deep { 1 } else { 0 }) {
+        let lx = &c.lx.v;
+        if lx.len() < 2 || !crate::front::tokenize(&spell(lx).text, "/w/x.st").1.is_empty() {
+            continue; // programs the lexer rejects are C01's subject
+        }
+        let name: String = format!("gram:{}", c.id());
+        out.push(Variant { doc: name.clone(), label: "canonical".into(), site: String::new(), spelled: spell(lx), valid: true });
+        out.push(Variant { doc: name.clone(), label: "lines".into(), site: String::new(), spelled: spell_lines(lx), valid: true });
+        if deep {
+            for (mname, mtext) in &menu {
+                let sp = spell_with(lx, "", "\n", &|_, g| match g {
+                    Glue::Hard => String::new(),
+                    _ => mtext.to_string(),
+                });
+                out.push(Variant { doc: name.clone(), label: format!("all:{}", mname), site: String::new(), spelled: sp, valid: true });
+            }
+        }
+    }
     for d in corpus::docs() {
         let lx = &d.lx.v;
         out.push(Variant { doc: d.name.into(), label: "canonical".into(), site: String::new(), spelled: spell(lx), valid: true });
@@ -263,7 +285,7 @@ fn key_for(v: &Variant, symptom: &str) -> String {
 pub fn run(ctx: &mut Ctx) {
     let thorough = ctx.tier.thorough();
     let legend = default_legend();
-    ctx.rule = "documents = base lexeme programs x (canonical, lines, every trivia menu member at every gap at once, each menu member at each single non-glued gap (quick: every third member per gap, rotated), leading/trailing trivia, an invalid character at 3 positions); every document goes through didOpen + semanticTokens/full on the real server; distinct = distinct document text".into();
+    ctx.rule = "documents = base lexeme programs x (canonical, lines, every trivia menu member at every gap at once, each menu member at each single non-glued gap leading/trailing trivia, an invalid character at 3 positions) + the simplest program of every reference-grammar group in canonical and one-lexeme-per-line spelling (thorough: every program with one deviation, also with each menu member at every gap at once); every document goes through didOpen + semanticTokens/full on the real server; distinct = distinct document text".into();
     ctx.assumptions.push("positions are compared in UTF-16 code units (LSP default position encoding); lines end at LF, CRLF or lone CR; a form feed is not a line terminator".into());
     ctx.assumptions.push("fragments of literals (T, ms, D, unit letters) are not judged; numbers, strings and punctuation must not be reported; identifiers and comments must be reported".into());
     ctx.bounds.insert("trivia_menu".into(), json!(corpus::trivia_menu().iter().map(|m| m.0).collect::<Vec<_>>()));
@@ -367,7 +389,7 @@ pub fn run(ctx: &mut Ctx) {
     ctx.extra.insert("history_cases".into(), json!(hist_cases));
 
     // stdio conformance: a systematic subset of the documents through the real binary
-    let stride = if thorough { 7 } else { 41 };
+    let stride = if thorough { 97 } else { 7 };
     let subset: Vec<&Variant> = vars.iter().enumerate().filter(|(i, _)| i % stride == 0).map(|(_, v)| v).collect();
     let conf: Vec<Option<String>> = subset
         .par_iter()
